@@ -325,29 +325,29 @@ Qed.
 Lemma sock_take_le oracle offered r o : sock_take oracle offered = (r, o) -> (r <= offered)%nat.
 Proof. unfold sock_take. destruct oracle; intros H; inversion H; lia. Qed.
 
-Lemma write_loop_spec queue : forall off awaiting force oracle st sent o,
+Lemma write_loop_spec queue : forall off awaiting pause force blocked oracle st sent o calls,
   (match queue with [] => off = O | b :: _ => (off <= length b)%nat end) ->
-  write_loop queue off awaiting force oracle = (st, sent, o) ->
+  write_loop queue off awaiting pause force blocked oracle = (st, sent, o, calls) ->
   sent ++ w_pending st = skipn off (concat queue) /\ w_wf st.
 Proof.
-  induction queue as [|b q IH]; intros off awaiting force oracle st sent o Hoff Hrun.
-  - cbn in Hrun. destruct (force || negb awaiting); inversion Hrun; subst; cbn;
+  induction queue as [|b q IH]; intros off awaiting pause force blocked oracle st sent o calls Hoff Hrun.
+  - cbn in Hrun. destruct (force || negb awaiting); [destruct force|]; inversion Hrun; subst; cbn;
       unfold w_pending, w_wf; cbn; (split; [reflexivity | auto]).
   - cbn [write_loop] in Hrun.
     destruct (force || negb awaiting).
     + destruct (sock_take oracle (length (skipn off b))) as [r o'] eqn:Htake.
       pose proof (sock_take_le _ _ _ _ Htake) as Hr. rewrite skipn_length in Hr.
       destruct (Nat.eqb_spec (off + r) (length b)) as [Heq|Hne].
-      * destruct (write_loop q 0 awaiting false o') as [[st1 sent1] o1] eqn:Hrec.
-        inversion Hrun; subst st sent o.
+      * destruct (write_loop q 0 awaiting (negb (should_read (b :: q) blocked)) false blocked o') as [[[st1 sent1] o1] c1] eqn:Hrec.
+        inversion Hrun; subst st sent o calls.
         assert (H0 : match q with [] => O = O | b0 :: _ => (0 <= length b0)%nat end)
           by (destruct q; [reflexivity | lia]).
-        destruct (IH O awaiting false o' st1 sent1 o1 H0 Hrec) as [Hs Hw].
+        destruct (IH O awaiting _ false blocked o' st1 sent1 o1 c1 H0 Hrec) as [Hs Hw].
         split; [|exact Hw].
         rewrite <- app_assoc, Hs. cbn [skipn].
         rewrite w_pending_cons by exact Hoff.
         rewrite firstn_all2 by (rewrite skipn_length; lia). reflexivity.
-      * inversion Hrun; subst st sent o.
+      * inversion Hrun; subst st sent o calls.
         split.
         -- unfold w_pending. cbn [w_off w_queue].
            rewrite !w_pending_cons by lia.
@@ -361,7 +361,8 @@ Lemma wstep_spec st op st' sent : w_wf st -> wstep st op = (st', sent) ->
   sent ++ w_pending st' =
   w_pending st ++ (match op with WEnqueue b => b | _ => [] end) /\ w_wf st'.
 Proof.
-  intros Hwf Hstep. destruct op as [b|force oracle|oracle]; cbn [wstep] in Hstep.
+  intros Hwf Hstep. unfold wstep in Hstep.
+  destruct op as [b|force blocked oracle|blocked oracle]; cbn [wstep_full] in Hstep.
   - inversion Hstep; subst. cbn [app]. unfold w_pending, w_wf in *. cbn [w_queue w_off].
     rewrite concat_app. cbn [concat]. rewrite app_nil_r.
     destruct (w_queue st) as [|b0 q] eqn:Hq.
@@ -370,12 +371,12 @@ Proof.
       rewrite skipn_app.
       replace (w_off st - length (concat (b0 :: q)))%nat with O; [reflexivity|].
       cbn [concat]. rewrite app_length. lia.
-  - destruct (write_loop (w_queue st) (w_off st) (w_awaiting st) force oracle) as [[st1 s1] o1] eqn:Hl.
+  - destruct (write_loop (w_queue st) (w_off st) (w_awaiting st) (w_pause st) _ blocked oracle) as [[[st1 s1] o1] c1] eqn:Hl.
     inversion Hstep; subst. rewrite app_nil_r.
-    apply (write_loop_spec _ _ _ _ _ _ _ _ Hwf Hl).
-  - destruct (write_loop (w_queue st) (w_off st) false true oracle) as [[st1 s1] o1] eqn:Hl.
+    apply (write_loop_spec _ _ _ _ _ _ _ _ _ _ _ Hwf Hl).
+  - destruct (write_loop (w_queue st) (w_off st) false (w_pause st) true blocked oracle) as [[[st1 s1] o1] c1] eqn:Hl.
     inversion Hstep; subst. rewrite app_nil_r.
-    apply (write_loop_spec _ _ _ _ _ _ _ _ Hwf Hl).
+    apply (write_loop_spec _ _ _ _ _ _ _ _ _ _ _ Hwf Hl).
 Qed.
 
 Lemma wrun_spec ops : forall st st' sent, w_wf st -> wrun st ops = (st', sent) ->
@@ -408,14 +409,14 @@ Qed.
 
 (** progress: a [write_buffer_space_avail] with a socket that takes everything offered empties the
     queue *)
-Lemma write_loop_drains_gen queue : forall off force oracle st sent o,
+Lemma write_loop_drains_gen queue : forall off pause force blocked oracle st sent o calls,
   Forall2 (fun b x => (length b <= x)%nat) queue (firstn (length queue) oracle) ->
   (match queue with [] => off = O | b :: _ => (off <= length b)%nat end) ->
-  write_loop queue off false force oracle = (st, sent, o) ->
+  write_loop queue off false pause force blocked oracle = (st, sent, o, calls) ->
   w_queue st = [] /\ w_off st = O.
 Proof.
-  induction queue as [|b q IH]; intros off force oracle st sent o Hbig Hoff Hrun.
-  - cbn [write_loop] in Hrun. destruct (force || negb false); inversion Hrun; subst; cbn; auto.
+  induction queue as [|b q IH]; intros off pause force blocked oracle st sent o calls Hbig Hoff Hrun.
+  - cbn [write_loop] in Hrun. destruct (force || negb false); [destruct force|]; inversion Hrun; subst; cbn; auto.
   - cbn [write_loop] in Hrun.
     replace (force || negb false) with true in Hrun by (destruct force; reflexivity).
     destruct oracle as [|x oracle]; [cbn in Hbig; inversion Hbig|].
@@ -424,16 +425,114 @@ Proof.
     replace (Nat.min x (length b - off)) with (length b - off)%nat in Hrun by lia.
     replace (off + (length b - off))%nat with (length b) in Hrun by lia.
     rewrite Nat.eqb_refl in Hrun.
-    destruct (write_loop q 0 false false oracle) as [[st1 s1] o1] eqn:Hrec.
+    destruct (write_loop q 0 false (negb (should_read (b :: q) blocked)) false blocked oracle) as [[[st1 s1] o1] c1] eqn:Hrec.
     inversion Hrun; subst.
-    eapply (IH O false oracle); [exact Hrest | destruct q; [reflexivity | lia] | exact Hrec].
+    eapply (IH O _ false blocked oracle); [exact Hrest | destruct q; [reflexivity | lia] | exact Hrec].
 Qed.
 
 (** progress: [write_buffer_space_avail] with a socket that takes everything offered empties the
     queue *)
-Lemma write_loop_drains queue off oracle st sent o :
+Lemma write_loop_drains queue off pause blocked oracle st sent o calls :
   Forall2 (fun b x => (length b <= x)%nat) queue (firstn (length queue) oracle) ->
   (match queue with [] => off = O | b :: _ => (off <= length b)%nat end) ->
-  write_loop queue off false true oracle = (st, sent, o) ->
+  write_loop queue off false pause true blocked oracle = (st, sent, o, calls) ->
   w_queue st = [] /\ w_off st = O.
 Proof. apply write_loop_drains_gen. Qed.
+
+(** ** read pause / resume *)
+
+Lemma should_read_tail b q blocked : should_read (b :: q) blocked = true -> should_read q blocked = true.
+Proof.
+  unfold should_read. rewrite !andb_true_iff, !Z.ltb_lt. cbn [length]. intros [H1 H2]. split; [lia | exact H2].
+Qed.
+
+(** while [should_read] holds (it keeps holding as the queue shrinks) every [send_data] call of
+    the loop carries [continue_read = true]; a forced entry makes at least one call; the state
+    ends with [sent_pause_read = false] as soon as a call was made *)
+Local Ltac fin := repeat split; intros; try reflexivity; try discriminate; try congruence; try (constructor; auto); auto.
+
+Lemma write_loop_resume queue : forall off awaiting pause force blocked oracle st sent o calls,
+  should_read queue blocked = true ->
+  write_loop queue off awaiting pause force blocked oracle = (st, sent, o, calls) ->
+  Forall (fun c => c = true) calls /\
+  (force = true -> calls <> []) /\
+  (calls <> [] -> w_pause st = false) /\ (calls = [] -> w_pause st = pause).
+Proof.
+  induction queue as [|b q IH]; intros off awaiting pause force blocked oracle st sent o calls Hsr Hrun.
+  - cbn [write_loop] in Hrun. rewrite Hsr in Hrun.
+    destruct (force || negb awaiting) eqn:Hf.
+    + destruct force; inversion Hrun; subst; cbn; fin.
+    + destruct force; [discriminate|]. inversion Hrun; subst; cbn; fin.
+  - cbn [write_loop] in Hrun. rewrite Hsr in Hrun. cbn [negb] in Hrun.
+    destruct (force || negb awaiting) eqn:Hf.
+    + destruct (sock_take oracle (length (skipn off b))) as [r o'].
+      destruct ((off + r =? length b)%nat).
+      * destruct (write_loop q 0 awaiting false false blocked o') as [[[st1 s1] o1] c1] eqn:Hrec.
+        inversion Hrun; subst.
+        destruct (IH _ _ _ _ _ _ _ _ _ _ (should_read_tail _ _ _ Hsr) Hrec) as [Hall [_ [Hne Hnil]]].
+        split; [constructor; [reflexivity | exact Hall]|].
+        split; [intros _; discriminate|].
+        split; [|intros H; discriminate].
+        intros _. destruct c1 as [|c c1]; [apply Hnil; reflexivity | apply Hne; discriminate].
+      * inversion Hrun; subst; cbn; fin.
+    + destruct force; [discriminate|]. inversion Hrun; subst; cbn; fin.
+Qed.
+
+(** the driver's contract: whatever the data (also none), [continue_read = true] unpauses reads,
+    and wakes the reader if it was paused *)
+Lemma drv_resume d data : d_read_paused (drv_send_data d data true) = false /\
+  (d_read_paused d = true -> d_wakeups (drv_send_data d data true) = Datatypes.S (d_wakeups d)).
+Proof. unfold drv_send_data; cbn. split; [reflexivity|]. intros ->. reflexivity. Qed.
+
+Lemma drv_calls_all_true calls : forall d, calls <> [] -> Forall (fun c => c = true) calls ->
+  d_read_paused (drv_calls d calls) = false /\
+  (d_read_paused d = true -> (d_wakeups d < d_wakeups (drv_calls d calls))%nat).
+Proof.
+  induction calls as [|c calls IH]; intros d Hne Hall; [contradiction|].
+  inversion Hall as [|? ? Hc Hrest]; subst. unfold drv_calls. cbn [fold_left].
+  fold (drv_calls (drv_send_data d [] true) calls).
+  destruct calls as [|c2 calls2].
+  - destruct d as [p w]. cbn. split; [reflexivity|]. intros Hp. subst p. cbn. apply Nat.lt_succ_diag_r.
+  - destruct (IH (drv_send_data d [] true)) as [Hp Hw]; [discriminate | exact Hrest |].
+    split; [exact Hp|]. intros Hd.
+    assert (Hmono : forall cs d0, (d_wakeups d0 <= d_wakeups (drv_calls d0 cs))%nat).
+    { induction cs as [|x cs IHcs]; intros d0; [cbn; lia|].
+      unfold drv_calls. cbn [fold_left]. fold (drv_calls (drv_send_data d0 [] x) cs).
+      specialize (IHcs (drv_send_data d0 [] x)). unfold drv_send_data in *. cbn in *.
+      destruct (x && d_read_paused d0); lia. }
+    specialize (Hmono (c2 :: calls2) (drv_send_data d [] true)).
+    assert (Hs : d_wakeups (drv_send_data d [] true) = Datatypes.S (d_wakeups d))
+      by (unfold drv_send_data; cbn; rewrite Hd; reflexivity).
+    rewrite Hs in Hmono. apply Nat.lt_le_trans with (Datatypes.S (d_wakeups d)); [apply Nat.lt_succ_diag_r | exact Hmono].
+Qed.
+
+(** READ RESUME: reads were paused ([sent_pause_read]), the condition that paused them is gone
+    (fewer than the limit queued, not blocked). Then the next [process_events] (forced or not,
+    whatever the socket answers, even with NOTHING queued) or [write_buffer_space_avail] issues at
+    least one [send_data] call, all with [continue_read = true]; the writer ends with
+    [sent_pause_read = false]; and a driver that honours the contract ends unpaused and woken *)
+Theorem read_resume st op d st' sent calls :
+  w_pause st = true -> d_read_paused d = true ->
+  (exists force oracle, op = WProcess force false oracle) \/ (exists oracle, op = WSpaceAvail false oracle) ->
+  should_read (w_queue st) false = true ->
+  wstep_full st op = (st', sent, calls) ->
+  calls <> [] /\ Forall (fun c => c = true) calls /\ w_pause st' = false /\
+  d_read_paused (drv_calls d calls) = false /\ (d_wakeups d < d_wakeups (drv_calls d calls))%nat.
+Proof.
+  intros Hp Hd Hop Hsr Hstep.
+  assert (Hloop : exists awaiting force, force = true /\ exists o,
+    write_loop (w_queue st) (w_off st) awaiting (w_pause st) force false
+      (match op with WProcess _ _ oracle => oracle | WSpaceAvail _ oracle => oracle | _ => [] end) = (st', sent, o, calls)).
+  { destruct Hop as [[force [oracle ->]]|[oracle ->]]; cbn [wstep_full] in Hstep.
+    - rewrite Hsr, Hp in Hstep. cbn [Bool.eqb] in Hstep. rewrite orb_true_r in Hstep.
+      destruct (write_loop (w_queue st) (w_off st) (w_awaiting st) true true false oracle) as [[[s1 x1] o1] c1] eqn:Hl.
+      inversion Hstep; subst. exists (w_awaiting st), true. split; [reflexivity|]. exists o1. rewrite Hp. exact Hl.
+    - destruct (write_loop (w_queue st) (w_off st) false (w_pause st) true false oracle) as [[[s1 x1] o1] c1] eqn:Hl.
+      inversion Hstep; subst. exists false, true. split; [reflexivity|]. exists o1. exact Hl. }
+  destruct Hloop as [awaiting [force [Hf [o Hl]]]].
+  destruct (write_loop_resume _ _ _ _ _ _ _ _ _ _ _ Hsr Hl) as [Hall [Hne [Hpause _]]].
+  specialize (Hne Hf).
+  destruct (drv_calls_all_true calls d Hne Hall) as [Hdp Hdw].
+  repeat split; auto.
+Qed.
+
